@@ -103,6 +103,8 @@ pub struct VhostUserHandler<T: VhostUserBackend> {
     vrings: Vec<T::Vring>,
     #[cfg(feature = "postcopy")]
     uffd: Option<Uffd>,
+    // The dirty log shared by the frontend (`SET_LOG_BASE`), if any.
+    logmem: Option<Arc<MmapLogReg>>,
     worker_threads: Vec<thread::JoinHandle<VringEpollResult<()>>>,
 }
 
@@ -164,6 +166,7 @@ where
             vrings,
             #[cfg(feature = "postcopy")]
             uffd: None,
+            logmem: None,
             worker_threads,
         })
     }
@@ -251,6 +254,25 @@ where
         } else {
             Err(VhostUserError::InactiveFeature(feat))
         }
+    }
+}
+
+impl<T: VhostUserBackend> VhostUserHandler<T>
+where
+    T::Bitmap: BitmapReplace,
+{
+    /// Makes a region that joins the memory table after `SET_LOG_BASE` log its dirty pages too.
+    /// Fails if the log does not cover the region.
+    fn log_region(&self, region: &GuestRegionMmap<T::Bitmap>) -> VhostUserResult<()> {
+        if let Some(logmem) = self.logmem.as_ref() {
+            let bitmap = <<T as VhostUserBackend>::Bitmap as BitmapReplace>::InnerBitmap::new(
+                region,
+                Arc::clone(logmem),
+            )
+            .map_err(VhostUserError::ReqHandlerError)?;
+            region.bitmap().replace(bitmap);
+        }
+        Ok(())
     }
 }
 
@@ -343,6 +365,7 @@ where
             .ok_or(VhostUserError::ReqHandlerError(
                 io::ErrorKind::InvalidInput.into(),
             ))?;
+            self.log_region(&guest_region)?;
             mappings.push(AddrMapping {
                 #[cfg(feature = "postcopy")]
                 local_addr: guest_region.as_ptr() as u64,
@@ -626,6 +649,7 @@ where
                 io::ErrorKind::InvalidInput.into(),
             ))?,
         );
+        self.log_region(&guest_region)?;
 
         let addr_mapping = AddrMapping {
             #[cfg(feature = "postcopy")]
@@ -788,6 +812,9 @@ where
         for (region, bitmap) in bitmaps {
             (*region).bitmap().replace(bitmap);
         }
+
+        // Regions added by later memory table updates have to use the same log.
+        self.logmem = Some(logmem);
 
         Ok(())
     }
